@@ -1,8 +1,9 @@
-import SLModel.Drv.Util
+import SLModel.Drv.Post
 open Lean
 namespace SL.Drv.C13
 
-/-- stub: no model operations for C13 yet -/
-def handle (_req : Json) : Except String Json := .error "C13: not implemented"
+/-- C13 runs the shared post-processing model (`SL.Post.search` / `SL.Post.Spec.search`),
+the definitions the theorems of `Props/C13` are about; see `Drv/Post.lean` for the protocol -/
+def handle (req : Json) : Except String Json := SL.Drv.Post.handle "C13" req
 
 end SL.Drv.C13
